@@ -222,3 +222,77 @@ def pure(t, root, conv=CONVERSIONS):
     if isinstance(t, tuple) and t[:1] == ("call",) and conv.search(re.sub(r"<[^<>]*>", "", t[1])):
         return any(pure(a_, root, conv) for a_ in t[2]) and not any(derives(a_, root) and not pure(a_, root, conv) for a_ in t[2])
     return False
+
+
+def eval_term(t, env):
+    """Concrete value of a closed arithmetic / comparison term under `env` (a dict term → int/bool); None when the term has a part
+    that is neither a literal, an `env` entry nor an integer / boolean operator.  Rust semantics for unsigned operands: Div and Rem
+    truncate, Sub below zero and division by zero are None (a panic or a wrap — never what a rule wants to rely on)."""
+    if t in env:
+        return env[t]
+    if not isinstance(t, tuple):
+        return t if isinstance(t, (int, bool)) else None
+    if t[:1] == ("lit",):
+        return t[1] if isinstance(t[1], (int, bool)) else None
+    if t[:1] == ("op",) and len(t) == 4:
+        a, b = eval_term(t[2], env), eval_term(t[3], env)
+        if a is None or b is None:
+            return None
+        a_, b_ = int(a), int(b)
+        o = t[1]
+        if o == "Add":
+            return a_ + b_
+        if o == "Sub":
+            return a_ - b_ if a_ >= b_ else None
+        if o == "Mul":
+            return a_ * b_
+        if o in ("Div", "Rem"):
+            if b_ == 0:
+                return None
+            return a_ // b_ if o == "Div" else a_ % b_
+        if o == "Shl":
+            return a_ << b_
+        if o == "Shr":
+            return a_ >> b_
+        if o in ("BitAnd", "And"):
+            return (a and b) if isinstance(a, bool) and isinstance(b, bool) else a_ & b_
+        if o in ("BitOr", "Or"):
+            return (a or b) if isinstance(a, bool) and isinstance(b, bool) else a_ | b_
+        if o == "BitXor":
+            return a_ ^ b_
+        if o in ("Eq", "Ne", "Lt", "Le", "Gt", "Ge"):
+            return {"Eq": a_ == b_, "Ne": a_ != b_, "Lt": a_ < b_, "Le": a_ <= b_, "Gt": a_ > b_, "Ge": a_ >= b_}[o]
+        return None
+    if t[:1] == ("op",) and len(t) == 3 and t[1] == "Not":
+        a = eval_term(t[2], env)
+        return None if a is None else (not a)
+    if t[0] in ("lt", "le", "eq") and len(t) == 3:
+        a, b = eval_term(t[1], env), eval_term(t[2], env)
+        if a is None or b is None:
+            return None
+        return {"lt": int(a) < int(b), "le": int(a) <= int(b), "eq": int(a) == int(b)}[t[0]]
+    if t[0] == "truth" and len(t) == 2:
+        return eval_term(t[1], env)
+    if t[:1] == ("call",) and len(t) == 3 and len(t[2]) == 2 and re.search(r"(usize|u64|u32)::div_ceil$", t[1]):
+        a, b = eval_term(t[2][0], env), eval_term(t[2][1], env)
+        return None if a is None or not b else -(-int(a) // int(b))
+    return None
+
+
+def path_at(paths, env):
+    """the complete paths whose every decision evaluates (eval_term) to the value the path took; (paths, unevaluable atoms)"""
+    out, unk = [], []
+    for q in paths:
+        ok = True
+        for (a, c, _, _) in q.decisions:
+            v = eval_term(a, env)
+            if v is None:
+                unk.append(a)
+                ok = False
+                break
+            if bool(v) != bool(c):
+                ok = False
+                break
+        if ok:
+            out.append(q)
+    return out, unk
